@@ -129,7 +129,11 @@ Proof.
   - (* Flush *)
     destruct (step (x_sys s) (Flush id)) as [y'|] eqn:S; [|discriminate].
     intros [= <- _]. destruct (step_quiet _ _ _ S) as [Hdb Hnow].
-    simpl_inv. rewrite Hdb, Hnow. now apply flush_inv.
+    assert (Hf: match (match l_mt (s_db (x_sys s)) with [] => x_iters s | e0 :: m0 => freeze_iters (e0 :: m0) (x_iters s) end) with
+                | [] => false | _ :: _ => true end
+                = match x_iters s with [] => false | _ :: _ => true end).
+    { destruct (l_mt (s_db (x_sys s))); auto. destruct (x_iters s); reflexivity. }
+    simpl_inv. rewrite Hf, Hdb, Hnow. now apply flush_inv.
   - (* Compact *)
     destruct A as (Hwf' & Hsub & HP & HC).
     destruct (negb (pick_check (l_levels (s_db (x_sys s))) c =? 0)); [discriminate|].
@@ -179,7 +183,7 @@ Proof.
   - (* ItOpen *)
     destruct (lookup (s_txns (x_sys s)) t) as [x|]; [|discriminate].
     intros [= <- _]. simpl_inv. apply (iters_inv _ _ _ _ (match x_iters s with [] => false | _ => true end)); auto.
-    right. destruct (update (x_iters s) i (mkIt t o (s_db (x_sys s)))) eqn:U; auto.
+    right. destruct (update (x_iters s) i (mkIt t o (s_db (x_sys s)) None)) eqn:U; auto.
     destruct (x_iters s) as [|[j a] r]; cbn in U; [discriminate|]. destruct (j =? i); discriminate.
   - (* ItRun *)
     destruct (lookup (x_iters s) i) as [it|]; [|discriminate].
